@@ -497,6 +497,7 @@ def run(ctx: Ctx, rep: Report, tier: str) -> None:  # noqa: C901
             rep.ok(f"{ls.qualname}: path storing all four views", "_ports = f(_items), _sport = g(_ports)", where=where(ls))
     numerals_as_text(ctx, rep)
     validated_is_returned(ctx, rep)
+    operand_range(ctx, rep)
     rep.rule("R08.5")
     for nm in ("items", "ports", "sport", "protocol"):
         st = port.lookup_setter(nm)
@@ -550,6 +551,70 @@ def validated_is_returned(ctx: Ctx, rep: Report, rid: str = "R08.1b") -> None:
         rep.ok("Port._line__items_to_ints: return", f"the validated list ({', '.join(sorted(lenvars))}) itself, reordered at most", where=where(li))
     else:
         rep.violation("Port._line__items_to_ints", f"return {snippet(bad)}", f"the arity was checked on `{', '.join(sorted(lenvars))}` but a list of possibly different length is returned: 'range 5 5' is stored with one operand and renders text its own parser rejects", where(li), inp='Port("range 5 5", protocol="tcp").line re-parsed')
+
+
+def operand_range(ctx: Ctx, rep: Report, rid: str = "R08.8") -> None:
+    """Operands are validated against the port universe before any port list is built from them.
+
+    Recognised guards in Port._line__items_to_ints (all normalise to the accepted integer interval of one operand):
+    `if bad := [i for i in xs if C(i)]: raise`, `if any(C(i) for i in xs): raise`, `if not all(C(i) …): raise`,
+    `for i in xs: if C(i): raise`.
+    """
+    rep.rule(rid)
+    li = ctx.func("Port._line__items_to_ints")
+    folder = ctx.folder
+    accepted: Optional[IntSet] = None
+
+    def from_comp(comp: ast.AST, negate: bool) -> Optional[IntSet]:
+        if isinstance(comp, (ast.ListComp, ast.GeneratorExp, ast.SetComp)) and len(comp.generators) == 1:
+            g = comp.generators[0]
+            var = src(g.target)
+            cond = g.ifs[0] if g.ifs and src(comp.elt) == var else comp.elt if not g.ifs else None
+            if cond is None:
+                return None
+            try:
+                s_ = cond_to_intset(cond, lambda x: src(x) == var, lambda x: folder.fold(x, li.module))
+            except NotInterval:
+                return None
+            return s_.complement() if negate else s_
+        return None
+
+    for n in own_nodes(li.node):
+        if isinstance(n, ast.If) and any(isinstance(x, ast.Raise) for x in n.body):
+            t = n.test
+            neg = False
+            while isinstance(t, ast.UnaryOp) and isinstance(t.op, ast.Not):
+                neg = not neg
+                t = t.operand
+            if isinstance(t, ast.NamedExpr):
+                t = t.value
+            bad: Optional[IntSet] = None
+            if isinstance(t, (ast.ListComp, ast.SetComp)) and not neg:
+                bad = from_comp(t, False)  # non-empty list of offenders -> raise
+            elif isinstance(t, ast.Call) and isinstance(t.func, ast.Name) and t.func.id == "any" and t.args and not neg:
+                bad = from_comp(t.args[0], False)
+            elif isinstance(t, ast.Call) and isinstance(t.func, ast.Name) and t.func.id == "all" and t.args and neg:
+                good = from_comp(t.args[0], False)
+                bad = good.complement() if good is not None else None
+            if bad is not None and bad != IntSet.empty() and bad != IntSet.all():
+                accepted = bad.complement() if accepted is None else accepted.intersect(bad.complement())
+        if isinstance(n, ast.For):
+            var = src(n.target)
+            for x in n.body:
+                if isinstance(x, ast.If) and any(isinstance(y, ast.Raise) for y in x.body):
+                    try:
+                        bad = cond_to_intset(x.test, lambda z: src(z) == var, lambda z: folder.fold(z, li.module))
+                        if bad != IntSet.all():
+                            accepted = bad.complement() if accepted is None else accepted.intersect(bad.complement())
+                    except NotInterval:
+                        pass
+    rep.instance()
+    if accepted is None:
+        rep.violation("Port._line__items_to_ints", "operand range", "operands are not checked against the port universe: 'eq 0' / 'range 5 70000' denote ports outside 1..65535 and 'range 1 99999999999999999999' raises OverflowError (or exhausts memory) while the list is built", where(li), inp='Port("range 1 99999999999999999999", protocol="tcp")')
+    elif accepted == UNIVERSE:
+        rep.ok("Port._line__items_to_ints: accepted operand", f"{accepted} = the port universe", where=where(li))
+    else:
+        rep.violation("Port._line__items_to_ints", f"accepted operand {accepted}", "operands must lie in the port universe 1..65535", where(li), inp='Port("eq 0", protocol="tcp").ports')
 
 
 NUMERAL_SLICE = [
